@@ -52,7 +52,7 @@ REQUIRED_PROBES = ['t==begin', 't==end-1', 't==end'] + \
      'honest_accept_single', 'honest_accept_chain', 'threshold_per_call',
      'second_hierarchy', 'foreign_witness_verified_under_own_root_first',
      'default_timestamp', 'crafted_witness', 'witness_with_code', 'witness_ending_in_return',
-     'crafted_marker', 'lock_form_bytes', 'lock_form_resrc', 'lock_form_redec', 'explicit_limits']
+     'crafted_marker', 'chain_len_long', 'lock_form_bytes', 'lock_form_resrc', 'lock_form_redec', 'explicit_limits']
 NAMES = ['K', 'Kp'] + ['D%d' % i for i in range(1, 7)] + ['F%d' % i for i in range(1, 7)]
 FIELD_RANGE = {'key': (0, 32), 'begin': (32, 36), 'end': (36, 40), 'can': (40, 41),
                'sig': (41, 105)}
@@ -62,6 +62,17 @@ EDGE_TS = [0, 1, 127, 128, 255, 256, 2 ** 15 - 1, 2 ** 15, 2 ** 23 - 1, 2 ** 23,
 
 MARKERS = ['0001', '00ff', '0100', 'ff00', '000000', '01', '80', '00ff00', '00' * 40 + '01',
            'ffff']
+
+
+def dn(pre, j):
+    """name of the j-th delegate (j >= 1) of a hierarchy: six keys per hierarchy, used
+    again from the seventh link on (a long chain may come back to an earlier key)"""
+    return '%s%d' % (pre, (j - 1) % 6 + 1)
+
+
+LONG = [64, 65, 100, 120]       # links; the default callstack_limit of 128 covers them
+LONG_ATTACKS = ('none', 'flip_final_sig', 'flip_marker', 'drop', 'dup', 'nodelegate',
+                'bad_flag', 'crafted')
 
 
 def decode_cell(i):
@@ -88,6 +99,11 @@ def gen_step(rng, cell, clocks, vname, at_us, thr, fault_free):
     lock, ln, win, slk, atk, cf = cell
     if lock == 'single':
         ln = 1
+    elif rng.chance(1, 150):
+        # a long chain: one call level per certificate, within the default limits
+        ln = rng.choice(LONG)
+        if not (atk in LONG_ATTACKS or atk.startswith('flip_')):
+            atk = 'none'
     now = _local_s(clocks[vname], at_us)
     # t relative to the validator clock and the slack
     if slk == 'ok' or thr <= 0:
@@ -118,8 +134,8 @@ def gen_step(rng, cell, clocks, vname, at_us, thr, fault_free):
                 b, e = t - w, t
             elif win == 'end+1':
                 b, e = t - 1 - w, t - 1
-        issuer = root if j == 0 else '%s%d' % (pre, j)
-        chain.append({'issuer': issuer, 'subject': '%s%d' % (pre, j + 1),
+        issuer = root if j == 0 else dn(pre, j)
+        chain.append({'issuer': issuer, 'subject': dn(pre, j + 1),
                       'begin': clampts(b), 'end': clampts(e),
                       'can': True if j < ln - 1 else rng.chance(1, 2)})
     step = {'at_us': at_us, 'validator': vname, 'lock': lock, 'witness': lock,
@@ -128,9 +144,9 @@ def gen_step(rng, cell, clocks, vname, at_us, thr, fault_free):
             'keys': rng.choice(['bytes', 'bytes', 'object']), 'prefix': rng.choice(PREFIXES),
             'cert_as': rng.choice(['bytes', 'object']), 'decor': rng.choice(DECORATIONS), 'suffix': rng.choice(SUFFIXES),
             'form': rng.choice(LOCK_FORMS), 'limits': rng.below(len(LIMITS)),
-            't': t, 'thr': thr, 'chain': chain, 'signer': '%s%d' % (pre, ln),
+            't': t, 'thr': thr, 'chain': chain, 'signer': dn(pre, ln),
             'allowed': rng.choice(['00', '00', '01', '03', '80', 'c1']), 'flag': '00',
-            'sigfields': {'sigfield%d' % k: rng.bytes(rng.choice([1, 16, 64, 64, 255, 256, 300])).hex()
+            'sigfields': {'sigfield%d' % k: rng.bytes(rng.choice([0, 1, 16, 64, 64, 255, 256, 300])).hex()
                           for k in rng.sample(range(1, 9), rng.rng(1, 3))},
             'attack': None, 'faults': []}
     if rng.chance(1, 3):
@@ -169,7 +185,7 @@ def gen_step(rng, cell, clocks, vname, at_us, thr, fault_free):
             # ... and the holder of the terminal certificate tries markers no builder emits
             step['attack'] = {'kind': 'marker', 'link': j, 'val': rng.choice(MARKERS)}
     elif a == 'wrong_signer':
-        step['signer'] = rng.choice(['%s%d' % (pre, k) for k in range(1, 7) if k != ln] + [root])
+        step['signer'] = rng.choice([dn(pre, k) for k in range(1, 7) if k != ln] + [root])
     elif a == 'cross_lock':
         step['witness'] = 'chain' if lock == 'single' else 'single'
     elif a == 'bad_flag':
@@ -443,11 +459,11 @@ def execute(plan, run):
                           'witness': step['witness'], 'signer': step['signer']})
         # who-level oracle for honest attempts: completeness of the builders
         honest = (not atk and not step.get('suffix') and step['witness'] == step['lock'] and
-                  step['signer'] == '%s%d' % (pre, ln) and
+                  step['signer'] == dn(pre, ln) and
                   all(c['can'] for c in step['chain'][:-1]) and
                   all(c['begin'] <= t < c['end'] for c in step['chain']) and
                   (int(step['flag'], 16) & ~int(step['allowed'], 16) & 0xff) == 0 and
-                  all(c['issuer'] == (root if j == 0 else '%s%d' % (pre, j))
+                  all(c['issuer'] == (root if j == 0 else dn(pre, j))
                       for j, c in enumerate(step['chain'])))
         if honest:
             s3 = slack3(t, reads, step['thr'])
@@ -465,7 +481,7 @@ def execute(plan, run):
             run.check('only_honest_accepted', not inwin,
                       'C14/%s_lock/builder_flow/dishonest_attempt_accepted/%s' % (
                           step['lock'],
-                          'wrong_signer' if step['signer'] != '%s%d' % (pre, ln) else
+                          'wrong_signer' if step['signer'] != dn(pre, ln) else
                           'cross_lock' if step['witness'] != step['lock'] else
                           'nodelegate' if not all(c['can'] for c in step['chain'][:-1]) else
                           'flag' if (int(step['flag'], 16) & ~int(step['allowed'], 16)) else 'other'),
@@ -481,7 +497,7 @@ def execute(plan, run):
                 run.probe('t==end-1')
             if t == c['end']:
                 run.probe('t==end')
-        run.probe('chain_len_%d' % ln)
+        run.probe('chain_len_%d' % ln if ln <= 6 else 'chain_len_long')
         if root == 'Kp':
             run.probe('second_hierarchy')
         if not all(c['can'] for c in step['chain'][:-1]):
@@ -543,7 +559,7 @@ def attack(items, atk, step, keys, run):
         j = atk['cert'] if chainw else ln - 1
         c = step['chain'][j]
         oroot, opre = ('Kp', 'F') if step.get('root', 'K') == 'K' else ('K', 'D')
-        issuer = oroot if j == 0 else '%s%d' % (opre, j)
+        issuer = oroot if j == 0 else dn(opre, j)
         forged = T.make_delegate_key_cert(keys[issuer][0], keys[c['subject']][1],
                                           c['begin'], c['end'], c['can']).pack()
         items[cert_pos(j if chainw else 0)] = forged
@@ -565,10 +581,10 @@ def attack(items, atk, step, keys, run):
         sf = {kk: bytes.fromhex(v) for kk, v in step['sigfields'].items()}
         packed = []
         for j, c in enumerate(step['chain']):
-            iss = oroot if j == 0 else '%s%d' % (opre, j)
-            packed.append(T.make_delegate_key_cert(keys[iss][0], keys['%s%d' % (opre, j + 1)][1],
+            iss = oroot if j == 0 else dn(opre, j)
+            packed.append(T.make_delegate_key_cert(keys[iss][0], keys[dn(opre, j + 1)][1],
                                                    c['begin'], c['end'], c['can']).pack())
-        signer = keys['%s%d' % (opre, ln)][0]
+        signer = keys[dn(opre, ln)][0]
         if chainw:
             w2 = T.make_delegate_key_chain_witness(signer, list(reversed(packed)), sf, step['flag'])
             lock2 = T.make_delegate_key_chain_lock(keys[oroot][1], step['allowed'])
